@@ -93,11 +93,38 @@ def soloFrom (fuel : Nat) (w : EWorld) (tid : Nat) : EWorld :=
 def entrySolo (now : Nat) (n : Node) (issuer purpose : String) : Node × String :=
   if purpose != "revocation" then (n, "err:purpose") else
   let w : EWorld := { node := n, threads := [{ issuer := issuer }], now := now }
-  let w' := soloFrom 6 w 0
+  let w' := soloFrom 40 w 0
   (w'.node, match w'.threads[0]? with | some th => phaseLine th.phase | none => "?")
 
-/-- the schedule the harness forces with its race injection (see the harness): the competitor's whole call, then the
-    victim whose first select saw the state from before the competitor -/
+/-- one whole transaction of thread `tid` with nothing interleaved: select (deterministic row), then the write half -/
+def oneTx (w : EWorld) (tid : Nat) : EWorld :=
+  match w.threads[tid]? with
+  | some th =>
+    match th.phase with
+    | .start pin => eWrite env (eRead env w tid (detSel w.node th.issuer pin)) tid
+    | .locked _ => eWrite env w tid
+    | _ => w
+  | none => w
+
+def finished (w : EWorld) (tid : Nat) : Bool :=
+  match w.threads[tid]? with
+  | some th => match th.phase with | .done _ _ => true | .failed _ => true | _ => false
+  | none => true
+
+/-- strict alternation of whole transactions (SQLite with one connection hands the connection to the waiting goroutine) -/
+def alternate (fuel : Nat) (w : EWorld) (first second : Nat) : EWorld :=
+  match fuel with
+  | 0 => w
+  | fuel + 1 =>
+    if finished w first && finished w second then w
+    else if finished w first then alternate fuel (oneTx w second) first second
+    else alternate fuel (oneTx w first) second first
+
+/-- the schedule the harness forces with its race injection (see the harness). The victim's first transaction ends in a
+    duplicate key when it tries to create a page; a competing `Entry` of the same issuer is then waiting for the
+    connection, and from there the two calls alternate transaction by transaction. If the victim's page does not exist
+    yet, the duplicate key is the one the competitor's create causes: in the model the competitor's creating transaction
+    is scheduled first and the victim's select returns the row (or none) from before it. -/
 def entryRace (now : Nat) (n : Node) (issuer : String) : Node × String :=
   match env.keyOf issuer with
   | none => (n, "victim=err:key competitor=none")
@@ -111,11 +138,18 @@ def entryRace (now : Nat) (n : Node) (issuer : String) : Node × String :=
       (n', s!"victim={l} competitor=none")
     else
       let w : EWorld := { node := n, threads := [{ issuer := issuer }, { issuer := issuer }], now := now }
-      let w1 := soloFrom 6 w 1
-      let w2 := eWrite env (eRead env w1 0 sel0) 0
-      let w3 := soloFrom 6 w2 0
-      let line (t : Nat) := match w3.threads[t]? with | some th => phaseLine th.phase | none => "?"
-      (w3.node, s!"victim={line 0} competitor={line 1}")
+      let v1 := eWrite env (eRead env w 0 sel0) 0
+      let natural := match v1.threads[0]? with
+        | some th => (match th.phase with | .start _ => true | _ => false)
+        | none => false
+      let wEnd :=
+        if natural then alternate 40 v1 1 0
+        else
+          let c1 := oneTx w 1
+          let v2 := eWrite env (eRead env c1 0 sel0) 0
+          alternate 40 v2 1 0
+      let line (t : Nat) := match wEnd.threads[t]? with | some th => phaseLine th.phase | none => "?"
+      (wEnd.node, s!"victim={line 0} competitor={line 1}")
 
 def hostFetch (j : Json) : Nat → Fetch :=
   let kind := jStr j "kind"
